@@ -331,6 +331,12 @@ def splice(template_path, repo_root, canary=False, quarantine=(), inline=None):
                 if oname in quarantine:
                     raise LostAnchor(quarantine[oname] if isinstance(quarantine, dict) else "quarantined")
                 src_path = os.path.join(repo_root, kv["src"])
+                if kv["src"].startswith("@cargo/"):
+                    # a dependency's source as cargo compiles it (the version is pinned by Cargo.lock; a configuration
+                    # obligation of the property checks that pin)
+                    import glob
+                    hits = sorted(glob.glob(os.path.join(os.path.expanduser("~/.cargo/registry/src"), "*", kv["src"][len("@cargo/"):])))
+                    src_path = hits[0] if hits else src_path
                 if not os.path.exists(src_path):
                     raise LostAnchor(f"source file {kv['src']} missing")
                 src_obj = Source.get(src_path)
